@@ -99,7 +99,7 @@ pub fn c20_uriref_noalloc_n9() {
 fn iriref_noalloc<const N: usize>() {
     let t = Text::<N>::any();
     let b = t.bytes();
-    assume(tables::t_iri_iriref_valid(b));
+    assume(tables::t_iri_iriref_valid_k(b, N));
     no_alloc_begin();
     let x = unsafe { IriRef::new_unchecked(as_str(b)) };
     let mut acc = ref_accessors!(x);
